@@ -34,7 +34,9 @@ type Spec struct {
 }
 
 var reasons = map[int]string{200: "OK", 201: "Created", 204: "No Content", 206: "Partial Content", 301: "Moved Permanently",
-	302: "Found", 304: "Not Modified", 404: "Not Found", 500: "Internal Server Error", 299: "Custom Reason"}
+	302: "Found", 304: "Not Modified", 404: "Not Found", 500: "Internal Server Error", 299: "Custom Reason",
+	300: "Multiple Choices", 303: "See Other", 305: "Use Proxy", 306: "Switch Proxy", 307: "Temporary Redirect",
+	308: "Permanent Redirect", 399: "Custom Redirect", 400: "Bad Request"}
 
 // Encoded is the body as it travels (content-encoded payload). Besides the plain one-shot gzip /
 // deflate streams, the decoders' input space: gzip bodies made of several MEMBERS (RFC 1952 2.2:
@@ -249,7 +251,11 @@ func Gen(r *core.Rand, req bool, maxBody int) *Spec {
 		}
 	} else {
 		s.Code = []int{200, 200, 200, 201, 206, 301, 302, 404, 500, 299}[r.Intn(10)]
-		if s.Code == 301 || s.Code == 302 || r.Chance(1, 10) {
+		if r.Chance(1, 5) {
+			// every 3xx status and its neighbours: a redirect is any status in [300, 400)
+			s.Code = []int{299, 300, 301, 302, 303, 305, 306, 307, 308, 399, 400}[r.Intn(11)]
+		}
+		if (s.Code >= 300 && s.Code < 400 && r.Chance(4, 5)) || r.Chance(1, 10) {
 			s.Extra = append(s.Extra, KV{"Location", r.Pick("http://h.example/next", "/rel?x=1")})
 		}
 		if r.Chance(1, 4) {
@@ -349,8 +355,13 @@ func Gen(r *core.Rand, req bool, maxBody int) *Spec {
 			for i, n := 0, r.Intn(3); i < n; i++ {
 				s.Trailer = append(s.Trailer, KV{r.Pick("X-Checksum", "X-T", "Expires", "A-Tr"), r.Pick("v", "abc def", "0", "")})
 			}
-			if len(s.Trailer) == 0 || r.Chance(1, 4) {
+			if len(s.Trailer) == 0 || r.Chance(1, 2) {
+				// trailers that are announced (`Trailer:` line) and then not sent: all / some / none of
+				// the announced names arrive
 				s.Decl = []string{"X-Unsent"}
+				if r.Bool() {
+					s.Decl = append(s.Decl, r.Pick("X-Later", "Server-Timing", "X-Digest"))
+				}
 			}
 		}
 		for i, n := 0, r.Intn(4); i < n; i++ {
